@@ -199,6 +199,43 @@ func structuralEdits(b *gen.Built, res *ref.XZResult) []edit {
 		resealAt(d, bs.Off)
 		add("backward_size", "ft_bsize", d)
 	}
+	// backward size: every single bit (the stored value is size/4 - 1 in 32
+	// bits; the high bits matter as much as the low ones)
+	for bit := 0; bit < 32; bit++ {
+		d := clone()
+		d[bs.Off+bit/8] ^= 1 << uint(bit%8)
+		resealAt(d, bs.Off)
+		add("backward_size_bit", "ft_bsize", d)
+	}
+	// index records of two blocks exchanged, or changed in opposite
+	// directions so that the count and both sums stay the same
+	{
+		up, us := lay.Find("idx_unpadded"), lay.Find("idx_usize")
+		for i := 0; i+1 < len(up) && i+1 < len(us) && i < 3; i++ {
+			j := i + 1
+			a := append(append([]byte{}, b.Stream[up[i].Off:up[i].Off+up[i].Len]...), b.Stream[us[i].Off:us[i].Off+us[i].Len]...)
+			c := append(append([]byte{}, b.Stream[up[j].Off:up[j].Off+up[j].Len]...), b.Stream[us[j].Off:us[j].Off+us[j].Len]...)
+			if len(a) == len(c) && !bytes.Equal(a, c) && us[i].Off == up[i].Off+up[i].Len && up[j].Off == us[i].Off+us[i].Len && us[j].Off == up[j].Off+up[j].Len {
+				d := clone()
+				copy(d[up[i].Off:], c)
+				copy(d[up[j].Off:], a)
+				resealAt(d, up[i].Off)
+				add("index_records_swapped", "idx_unpadded", d)
+			}
+			for _, kind := range [][]ref.Span{up, us} {
+				vi, vj := int(b.Stream[kind[i].Off]&0x7F), int(b.Stream[kind[j].Off]&0x7F)
+				for _, dl := range []int{1, 4} {
+					if vi+dl <= 0x7F && vj-dl >= 1 {
+						d := clone()
+						d[kind[i].Off] = d[kind[i].Off]&0x80 | byte(vi+dl)
+						d[kind[j].Off] = d[kind[j].Off]&0x80 | byte(vj-dl)
+						resealAt(d, kind[i].Off)
+						add("index_records_shifted", kind[i].Kind, d)
+					}
+				}
+			}
+		}
+	}
 	// index: record count, records, padding
 	cnt := lay.Find("idx_count")[0]
 	for _, dlt := range []int{-1, 1} {
@@ -310,6 +347,13 @@ func structuralEdits(b *gen.Built, res *ref.XZResult) []edit {
 				resealAt(d, sp.Off)
 				add("size_field_altered", kind, d)
 			}
+			if sp.Len == 1 && b.Stream[sp.Off] != 0 {
+				// a declared size of exactly zero for a block that holds data
+				d := clone()
+				d[sp.Off] = 0
+				resealAt(d, sp.Off)
+				add("size_field_zero", kind, d)
+			}
 		}
 	}
 	for bi, blk := range st.Blocks {
@@ -328,14 +372,20 @@ func structuralEdits(b *gen.Built, res *ref.XZResult) []edit {
 		}
 		h0 := blk.HeaderOff
 		for _, which := range []string{"csize", "usize"} {
-			for _, dlt := range []int64{-1, 1} {
+			for _, dlt := range []int64{-1, 1, -1 << 40} {
 				val := int64(blk.CompSize) + dlt
 				flag := byte(0x40)
 				if which == "usize" {
 					val = int64(blk.USize) + dlt
 					flag = 0x80
 				}
-				if val < 0 || (which == "csize" && val == 0) {
+				if dlt == -1<<40 {
+					// a declared size of exactly zero
+					if (which == "usize" && blk.USize == 0) || (which == "csize" && blk.CompSize == 0) {
+						continue
+					}
+					val = 0
+				} else if val < 0 || (which == "csize" && val == 0) {
 					continue
 				}
 				vi := ref.PutVarint(nil, uint64(val))
